@@ -13,6 +13,8 @@ func init() {
 		Run: func(c *chk.Ctx, tier string) {
 			c.Clause("C15-D1/D2/D3")
 			ruleWrapCallsOnce(c)
+			ruleDecodeTargets(c)
+			ruleOmitTagWholeTag(c)
 			c.Clause("C15-D4")
 			ruleWrapSnapshot(c)
 			c.Clause("C15-D5/D6")
@@ -29,6 +31,7 @@ func init() {
 		Run: func(c *chk.Ctx, tier string) {
 			c.Clause("C16-D1")
 			rulePositional(c)
+			ruleWrapSnapshot(c)
 			c.Clause("C16-D2")
 			ruleExactLength(c)
 			c.Clause("C16-D3")
